@@ -1,6 +1,9 @@
 package rogger
 
-import "context"
+import (
+	"context"
+	"time"
+)
 
 // Accessors for the verification harness (overlay file; not part of the repository).
 
@@ -31,4 +34,17 @@ func VerifReset() int {
 	asyncDone, asyncCancel = context.WithCancel(context.Background())
 	go flushLog()
 	return dropped
+}
+
+// VerifStopFlusher requests a flush directly (independent of FlushLogger) and waits for the
+// background flusher to acknowledge and exit, so that VerifReset never runs with an old
+// flusher still alive.
+func VerifStopFlusher() bool {
+	syncCancel()
+	select {
+	case <-asyncDone.Done():
+		return true
+	case <-time.After(3 * time.Second):
+		return false
+	}
 }
